@@ -52,7 +52,7 @@ ASSUMPTIONS = [
     "panics/crashes are C14's business and are counted inconclusive here",
 ]
 PLAN = {
-    "quick": {"scale": 1, "max_bytes": 4096, "max_bits": 5000, "max_exp": 320},
+    "quick": {"scale": 3, "max_bytes": 4096, "max_bits": 5000, "max_exp": 320},
     "thorough": {"scale": 24, "max_bytes": 65536, "max_bits": 5000, "max_exp": 3000},
 }
 # cases per unit of scale
